@@ -65,10 +65,10 @@ P("C08", "model_checking",
 P("C09", "proof",
   "Every advancing parser function is proved to return false and leave cursor, depth, current_state and the error code unchanged once an error is set; getters are proved neutral under any error; _advance_parsing returns true only without error; verify false always leaves a code. Writer: proved that an error is never cleared by a write, nothing is stored once set (frame), the counter keeps counting, return value == (error == NONE).",
   "only init/reset/verify clear an error (their contracts)", "CBMC function contracts (latching post-conditions)", "5/C09")
-P("C10", "model_checking",
-  "Token-level inverse facts proved for all values: writer output of an integer/length is the canonical width and bytes that _parse_integer/_process_one accept and decode to the same value (contracts on both sides share the byte-level specification VC_WIDTH/VC_SVAL/VC_LE_BYTE); payloads verbatim. Whole-document transcription is BOUNDED.",
-  BOUNDED_NOTE, "shared byte-level spec in encoder and decoder contracts + bounded transcription", "5/C10",
-  bounded={"max_bytes_quick": 7})
+P("C10", "proof",
+  "Per-token inverse facts proved for all values on the REAL encoder/decoder pair: parse(pack(v)) = v and accepted as shortest form for every int64, pack(parse(b)) = b for every shortest-form encoding, doubles bit-identical through decode + encode (complete CBMC runs, loops bounded by the operand width); every write function appends exactly type byte + canonical length + verbatim payload (contracts, ghost byte index); the decode path hands back exactly the sub-spans and values the bytes encode (_process_one contract, next-scalar step contract, E2). The document-level identity is the composition of these per-token facts over a traversal that visits every token once in order (C06).",
+  "the induction over the token sequence is a paper step and relies on C06, which is decided only up to a bound; no whole-document transcription harness was built (the bounded run with a writer in the loop did not fit the memory box)",
+  "round-trip lemmas on the real encoder/decoder + byte-level contracts on both sides", "5/C10")
 P("C11", "model_checking",
   "Proved unbounded: get_raw on a non-container returns false and leaves the parser unchanged; on success the span starts at the cursor, ends at the new cursor and lies inside the buffer; write_raw appends exactly the given bytes. 'Span = BEGIN..matching END, cursor continues after it' is BOUNDED against the reference cursor.",
   BOUNDED_NOTE, "contracts on get_raw/write_raw + CBMC bounded check vs reference cursor", "5/C11",
